@@ -40,7 +40,7 @@ def spec_states(spec, n):
     return variants[spec[1] % len(variants)]
 
 
-def check_output(table, newick, data, samples, cluster_rows, expect_state, label):
+def check_output(table, newick, data, samples, cluster_rows, expect_state, label, optimum=True):
     probs = []
     name_to_idx = {str(d.name): d.idx for d in data}
     cluster_of = {m: c for m, c in cluster_rows} if cluster_rows is not None else None
@@ -105,7 +105,7 @@ def check_output(table, newick, data, samples, cluster_rows, expect_state, label
         if all(k in ccf for k in tops) and sum(ccf[k] for k in tops) > 1 + 1e-9:
             probs.append("%s: top-level clones sum to %g > 1 (sample %s)" % (label, sum(ccf[k] for k in tops), s))
         stt = traces.decoded_state(dec)
-        if stt is not None and len(stt[0]) > 0 and not probs:
+        if optimum and stt is not None and len(stt[0]) > 0 and not probs:
             best, nodes, lp = brute_max(stt, data, si)
             name_of = {dec["blocks"][c]: c for c in dec["blocks"]}
             val = 0.0
@@ -189,6 +189,62 @@ def case(item):
     return res
 
 
+def large_case(item):
+    """Bigger inputs: 12 data points / clusters (ids >= 10), 3 samples, deep and wide trees, some outliers."""
+    par, clustered, k = item
+    from phyclone.process_trace import write_map_results, write_consensus_results, write_topology_report
+    from mc.checks.c02 import forest_state
+
+    K = len(par)
+    sizes = [1 + (i % 2) for i in range(K)]
+    state, n_in = forest_state(par, sizes)
+    n = n_in + 2
+    state = (state[0], frozenset([n_in, n_in + 1]) if k % 2 == 0 else frozenset())  # two outliers in half of the cases
+    samples = ["S2", "S10", "S1"]
+    if clustered:
+        data, crows = traces.clustered_setup(n, (1, 2, 3), dims=3, grid=4, outlier_prob=0.2)
+    else:
+        data, crows = traces.named_data(n, dims=3, grid=4, outlier_prob=0.2), None
+    if k % 2:
+        state = (state[0], frozenset())
+        # the two spare points join the first clone so that every data point is placed
+        first = sorted(state[0], key=lambda bp: sorted(bp[0]))[0][0]
+        nb = frozenset(first | {n_in, n_in + 1})
+        state = (frozenset(((nb if b == first else b), (nb if p_ == first else p_)) for b, p_ in state[0]), frozenset())
+    res = {"item": item, "problems": [], "outputs": 0}
+    d = traces.scratch("c12L_")
+    try:
+        t = oracle.build(state, data, reverse_siblings=bool(k % 3 == 0))
+        t.relabel_nodes()
+        results = traces.make_results(data, samples, {0: [(t, -5.0)], 1: [(t, -4.0)]})
+        path = traces.write_trace(d, results, crows)
+        tb, tr = os.path.join(d, "t.tsv"), os.path.join(d, "t.nwk")
+        jobs = [("map", lambda: write_map_results(path, tb, tr)), ("consensus", lambda: write_consensus_results(path, tb, tr, consensus_threshold=0.5, weight_type="counts"))]
+        for label, fn in jobs:
+            try:
+                traces.quiet(fn)
+            except Exception as e:
+                res["problems"].append("%s: command failed with %s: %s" % (label, type(e).__name__, str(e)[:120]))
+                continue
+            res["outputs"] += 1
+            probs, _ = check_output(traces.read_table(tb), open(tr).read().strip(), data, samples, crows, state, label, optimum=False)
+            res["problems"] += probs[:2]
+        rep, arch = os.path.join(d, "r.tsv"), os.path.join(d, "r.tar.gz")
+        try:
+            traces.quiet(write_topology_report, path, rep, topologies_archive=arch)
+            for tid, (tab, nwk) in traces.read_archive(arch).items():
+                res["outputs"] += 1
+                probs, _ = check_output(tab, nwk, data, samples, crows, state, "topology-report/" + tid, optimum=False)
+                res["problems"] += probs[:2]
+        except Exception as e:
+            res["problems"].append("topology-report: command failed with %s: %s" % (type(e).__name__, str(e)[:120]))
+    except Exception as e:
+        res["problems"].append("harness: %s: %s" % (type(e).__name__, e))
+    finally:
+        shutil.rmtree(d, ignore_errors=True)
+    return res
+
+
 def main(tier, seed):
     chk = Check("C12", tier, seed)
     chk.rule = ("every tree over n<=3 data points incl. every outlier subset (all-outlier, single-clone ...) and multisets whose consensus has empty clones, x "
@@ -214,6 +270,17 @@ def main(tier, seed):
                 for cl in (False, True):
                     for dims in (1, 2):
                         items.append((n, ("empty-clone", k), cl, dims))
+    from mc.checks.c02 import large_forests
+
+    litems = [(par, cl, k) for k, par in enumerate(p_ for p_ in large_forests() if len(p_) == 8) for cl in (False, True)]
+    for r in pool_imap(large_case, litems, chunksize=1):
+        chk.states.add(("large",) + tuple(r["item"]))
+        chk.nontrivial.add(("large",) + tuple(r["item"]))
+        chk.transitions += r["outputs"]
+        chk.traces_validated += r["outputs"]
+        for pr in r["problems"][:3]:
+            chk.violation({"sub": "table-large", "command": pr.split(":")[0].split("/")[0], "clustered": r["item"][1], "what": pr.split(":")[1].strip()[:40] if ":" in pr else pr[:40]},
+                          {"forest_parent_vector": list(r["item"][0]), "clustered": r["item"][1], "problem": pr}, {"large": [list(r["item"][0]), r["item"][1], r["item"][2]]})
     for r in pool_imap(case, items, chunksize=2):
         n, spec, cl, dims = r["item"]
         chk.states.add((n, spec))
@@ -232,6 +299,11 @@ def main(tier, seed):
 
 def replay(path):
     body = json.load(open(path))
+    if "large" in body["replay"]:
+        it = body["replay"]["large"]
+        r = large_case((tuple(it[0]), it[1], it[2]))
+        print(r["problems"])
+        return 1 if r["problems"] else 0
     it = body["replay"]["item"]
     r = case((it[0], tuple(it[1]), it[2], it[3]))
     print(r["problems"])
